@@ -117,10 +117,18 @@ def run(ctx):
   # ---- leg R: EMNIST domain ids
   table = {c['writer']: c['dom'] for c in rd.json}
   bad = []
+  # documented id formats: "f<4 digits>_<2 digits>" and "<16 hex digits>:f<4 digits>_<2 digits>"; the hash part is arbitrary
+  # hex - including hashes that themselves contain an 'f' followed by four digits on the other side of a range boundary
+  decoys = [b'0123456789abcdef', b'00f21000000000ab', b'10f6609cd89529e8', b'f2599f2600f20990', b'ffffffffffffffff', b'a0f0000f99990000']
   for w in range(10000):
-    for cid in (b'f%04d_%02d' % (w, w % 100), b'x' * 18 + b'%04d' % w + b'yyy'):
-      if demnist.domain_id(cid) != table[w]:
-        bad.append((w, cid))
+    h16 = decoys[w % len(decoys)] if w % 3 else (b'%016x' % ((w * 2654435761 + ctx.seed) % 16**16))
+    for cid in (b'f%04d_%02d' % (w, w % 100), h16 + b':f%04d_%02d' % (w, (w * 7) % 100)):
+      try:
+        got_dom = demnist.domain_id(cid)
+      except Exception as ex:  # pylint: disable=broad-except
+        got_dom = f'{type(ex).__name__}'
+      if got_dom != table[w]:
+        bad.append((w, cid, got_dom))
   n += 20000
   ctx.case(key='emnist-domain', nontrivial=True, n=20000)
   if bad:
